@@ -145,6 +145,21 @@ def cases():
             yield dict(name="redef-for-variable", d=d, u=u, expect=rexp, src=render({d: ["x := 5"], u: ["for x := 0; x < 1; x++ {", "}"]}))
             yield dict(name="redef-short-multi", d=d, u=u, expect=True if INFO.order[d] < INFO.order[u] else not visible(u, d),
                        src=render({d: ["x := 5"], u: ["x, zz9 := 6, 7"]}))
+    # 1b. three sites (round 10: C07-C): x defined at d, a short definition of several names that RE-USES x in a block nested below d
+    #     (x is assigned, only zz9 is new and ends with that block), then a site w behind that block where x is still visible: x is
+    #     still usable there, still cannot be defined again, and zz9 is gone
+    for d in SLOTS:
+        for u in SLOTS:
+            if not visible(d, u) or len(INFO.path[u]) <= len(INFO.path[d]):
+                continue
+            for w in SLOTS:
+                if INFO.order[w] <= INFO.order[u] or not visible(d, w) or visible(u, w):
+                    continue
+                yield dict(name="reuse-in-block-then-use", d=d, u=w, expect=True, src=render({d: ["x := 5"], u: ["x, zz9 := 6, 7", "print(x, zz9)"], w: ["print(x)"]}))
+                yield dict(name="reuse-in-block-then-assign", d=d, u=w, expect=True, src=render({d: ["x := 5"], u: ["x, zz9 := 6, 7"], w: ["x = 8"]}))
+                yield dict(name="reuse-in-block-then-redef", d=d, u=w, expect=False, src=render({d: ["x := 5"], u: ["x, zz9 := 6, 7"], w: ["var x int = 9"]}))
+                yield dict(name="reuse-in-block-then-redef-short", d=d, u=w, expect=False, src=render({d: ["x := 5"], u: ["x, zz9 := 6, 7"], w: ["x := 9"]}))
+                yield dict(name="reuse-in-block-new-name-gone", d=d, u=w, expect=False, src=render({d: ["x := 5"], u: ["x, zz9 := 6, 7"], w: ["print(zz9)"]}))
     # 2. parameters, loop-header and range variables
     for u in SLOTS:
         in_f = u in (1, 2, 3, 4, 5, 6, 7, 8)
